@@ -227,3 +227,87 @@ func VH_C13_MapIterators() {
 	}
 	vhReach("iter-done")
 }
+
+func vhIsReadOnlyMutation(err error) bool {
+	var e *ReadOnlyIteratorElementMutationError
+	return errorsAs(err, &e)
+}
+
+// Mutating a nested container during iteration: through a mutable iterator it
+// is supported and neither skips nor repeats (the child may outgrow the inline
+// limit and restructure the parent under the cursor); through a read-only
+// iterator the child's mutation functions report the mutation error and the
+// parent is left unchanged.
+//
+//vh:prop C13 C10
+//vh:param children 2 2
+func VH_C13_NestedIteration() {
+	vhSetThreshold(256)
+	storage := vhNewBasicStorage()
+	addr := vhAddr(1)
+	parent, _ := NewArray(storage, addr, vTypeInfo{id: 42})
+	nchild := vhParam("children", 2)
+	// layout: scalar, child, scalar, child ... (sizes symbolic)
+	var kinds []bool // true = child
+	var vids []ValueID
+	var tags []uint64
+	for i := 0; i < nchild; i++ {
+		t := uint64(10 + i)
+		_ = parent.Append(vElem{tag: t, size: vhRange32("sz", 1, 100)})
+		kinds, vids, tags = append(kinds, false), append(vids, ValueID{}), append(tags, t)
+		c, _ := NewArray(storage, addr, vTypeInfo{id: 42})
+		_ = c.Append(vElem{tag: 500, size: vhRange32("csz", 1, 60)})
+		_ = parent.Append(c)
+		kinds, vids, tags = append(kinds, true), append(vids, c.ValueID()), append(tags, 0)
+	}
+	readOnly := vhChoose("readonly", 2) == 1
+	mutateAt := vhChoose("mutateAt", len(kinds)+1)
+	i := 0
+	visit := func(v Value) (bool, error) {
+		if i < len(kinds) {
+			if kinds[i] {
+				c, ok := v.(*Array)
+				vhAssert(ok, "child yielded as an array")
+				if ok {
+					vhAssert(c.ValueID() == vids[i], "children in index order")
+					if i == mutateAt || mutateAt == len(kinds) {
+						err := c.Append(vElem{tag: 600, size: vhRange32("grow", 1, 250)})
+						if readOnly {
+							vhAssert(err != nil, "read-only iteration: child mutation is reported")
+							vhAssert(vhIsReadOnlyMutation(err), "read-only iteration: mutation error kind")
+						} else {
+							vhAssert(err == nil, "mutable iteration: child mutation supported")
+						}
+					}
+				}
+			} else {
+				vhAssert(vhTagOf(v) == tags[i], "scalars in index order")
+			}
+		}
+		i++
+		return true, nil
+	}
+	var err error
+	if readOnly {
+		err = parent.IterateReadOnly(visit)
+	} else {
+		err = parent.Iterate(visit)
+	}
+	vhAssert(err == nil, "iteration: no error")
+	vhAssert(i == len(kinds), "every element exactly once")
+	if !readOnly {
+		verr := VerifyArray(parent, addr, vTypeInfo{id: 42}, vhTic, vhHip, true)
+		vhAssert(verr == nil, "parent valid after mutating children during iteration")
+		// the growth is visible through the parent
+		for k := range kinds {
+			if kinds[k] && (k == mutateAt || mutateAt == len(kinds)) {
+				v, gerr := parent.Get(uint64(k))
+				vhAssert(gerr == nil, "get child")
+				if gerr == nil {
+					vhAssert(v.(*Array).Count() == 2, "child mutation visible through parent")
+				}
+			}
+		}
+	}
+	vhReach("nested-iter-done")
+}
